@@ -596,8 +596,20 @@ def effects_run(fns, table, comb):
     undecided_e += ec.get('undecided', [])
     n_rec = sum(1 for f in fns if f.recursive)
     checked += 1
-    if n_rec > 128:
-        failures.append(fail('-', 'C07.recursive-parser-index-overflow', '%d #[recursive_parser] functions exceed the 128 bits of RecursiveInfo' % n_rec, ['C07', 'C08'], None))
+    # capacity of nom-recursive's per-thread name table (never reset; an index beyond it is a panic that depends on which
+    # productions earlier calls on the thread happened to use): 64 bits per flag word, 1 / 2 / 4 words by cargo feature
+    cap = None
+    try:
+        toml = open(os.path.join(REPO, 'sv-parser-parser', 'Cargo.toml'), encoding='utf-8').read()
+        m_ = re.search(r'^nom-recursive\s*=\s*(.*)$', toml, re.M)
+        if m_:
+            cap = 256 if 'tracer256' in m_.group(1) else 128 if 'tracer128' in m_.group(1) else 64
+    except IOError:
+        pass
+    if cap is None:
+        undecided_e.append('the nom-recursive dependency line of sv-parser-parser/Cargo.toml could not be read (capacity of the recursion-flag table unknown)')
+    elif n_rec > cap:
+        failures.append(fail('-', 'C07.recursive-parser-index-overflow', '%d #[recursive_parser] functions exceed the %d bits of RecursiveInfo selected in Cargo.toml' % (n_rec, cap), ['C07', 'C08'], None))
     return dict(failures=failures, checked=checked, tls=sorted(tls), n_packrat=n_packrat, n_recursive=n_rec, E=E, undecided=undecided_e)
 
 
@@ -697,6 +709,41 @@ SPECIFIERS = {'1364-1995': 'Ieee1364_1995', '1364-2001': 'Ieee1364_2001', '1364-
               '1800-2005': 'Ieee1800_2005', '1800-2009': 'Ieee1800_2009', '1800-2012': 'Ieee1800_2012', '1800-2017': 'Ieee1800_2017', 'directive': 'Directive'}
 
 
+def kwsites_check(fns):
+    """every region is opened under a name begin_keywords knows (an unknown name pushes NOTHING: the lexing that follows runs
+    under whatever set was in force and the end_keywords() that follows pops somebody else's entry); macro names are lexed
+    under the directive-name set"""
+    failures = []
+    undecided = []
+    checked = 0
+    by_name = {f.name: f for f in fns}
+    bk = by_name.get('begin_keywords')
+    if bk is None:
+        return dict(failures=[], undecided=['begin_keywords not found (anchor lost)'], checked=0)
+    known = set(re.findall(r'"([^"]*)"\s*=>', bk.body_src))
+    if not known:
+        return dict(failures=[], undecided=['begin_keywords: the names it accepts could not be read off its match arms'], checked=0)
+    for f in fns:
+        if not f.ast or f.name == 'begin_keywords':
+            continue
+        for n in walk(f.ast):
+            if n[0] == 'call' and n[1] == ('var', 'begin_keywords'):
+                checked += 1
+                a = n[2][0] if len(n[2]) == 1 else None
+                if a is None or a[0] != 'lit' or not (a[1].startswith('"') and a[1].endswith('"')):
+                    undecided.append('%s: begin_keywords is called with something other than one string literal' % f.name)
+                    continue
+                lit = a[1][1:-1]
+                props = ['C13'] + (['C05'] if f.name == 'text_macro_usage' else []) + (['C11'] if f.name == 'text_macro_definition' else [])
+                if lit not in known:
+                    failures.append(fail(f.name, 'C13.kw.%s-opens-a-region-under-a-known-name' % f.name,
+                                         'begin_keywords("%s"): no such keyword set, the call pushes nothing' % lit, props, f))
+                elif f.name.startswith('text_macro_') and lit != 'directive':
+                    failures.append(fail(f.name, 'C13.kw.%s-lexes-the-macro-name-under-the-directive-set' % f.name,
+                                         'the macro name is lexed under the keyword set "%s"' % lit, props, f))
+    return dict(failures=failures, undecided=undecided, checked=checked)
+
+
 def ident_run(fns, table, comb, faithful_notes):
     failures = []
     undecided = []
@@ -740,6 +787,7 @@ def ident_run(fns, table, comb, faithful_notes):
                     failures.append(fail('version_specifier', 'C13.kw.version_specifier-%s' % spec, 'no alternative lexes the specifier "%s"' % spec, ['C13'], vs))
             elif m_.group(2) != spec or m_.group(1) != m_.group(3):
                 failures.append(fail('version_specifier', 'C13.kw.version_specifier-%s' % spec, 'the alternative for "%s" opens the region "%s"' % (spec, m_.group(2)), ['C13'], vs))
+    # (8) names under which regions are opened: analysis kwsites (kwsites_check), shared with C05 and C11
     # (7) no production outside the committed list touches the keyword-version stack
     da = direct_access_check(fns)
     checked += da['checked']
